@@ -201,8 +201,15 @@ func init() {
 	externDoc["interface method Marshal"] = "efivar.Marshallable.Marshal(b) of a caller-supplied value: appends marshal(m), a byte string that depends on m only (pure and repeatable: ASSUMED of every implementation), to b; recorded on the ghost trace"
 	specFuncs["marshal"] = func(e *specEnv, args []SV) SV {
 		iv, ok := args[0].V.(IfaceV)
+		if ok && iv.Sym == "" && iv.Dyn != nil && iv.Dyn.String() == "*"+modPath+"/efi/signature.SignatureDatabase" {
+			// a database handed over as a Marshallable: what (*SignatureDatabase).Marshal is proved to write
+			db := e.deref(SV{V: iv.Payload, T: iv.Dyn})
+			if e.err == nil {
+				return specFuncs["encLists"](e, []SV{specFuncs["lists"](e, []SV{db})})
+			}
+		}
 		if !ok || iv.Sym == "" {
-			return e.fail("marshal() needs a symbolic Marshallable")
+			return e.fail("marshal() needs a symbolic Marshallable or a *SignatureDatabase")
 		}
 		e.x.w.Decl("(declare-fun g_marshal (Int) " + SSeqI + ")")
 		return SV{V: TV{SSeqI, app("g_marshal", iv.Sym)}, T: types.NewSlice(types.Typ[types.Uint8])}
